@@ -57,6 +57,12 @@ def git_head(path):
 
 def run(prop, tier, seed, replay, UNITS, build_unit, run_verus, scan_assumptions):
     t0 = time.time()
+    if replay:
+        import replay_driver as _rd
+        rc = _rd.do_replay(prop, replay)
+        if rc is not None:
+            return rc
+        # no concrete input recorded: re-run the check; the exit code says whether it still fails
     units = [u for u in UNITS if prop in UNITS[u]['properties']]
     if not units:
         print('UNDECIDED property=%s reason=no unit serves this property' % prop)
